@@ -121,6 +121,9 @@ inductive SetOp (K Q : Type) where
 inductive Op (K V Q : Type) where
   | map (reg : Nat) (op : MapOp K V Q)
   | set (reg : Nat) (op : SetOp K Q)
+  /-- a `Map` API operation on a `Map<K, (), N>`: the zero-sized-value shape.  `Set<T, N>` is a
+      `#[repr(transparent)]` wrapper of such a map, so these operations act on the set registers. -/
+  | umap (reg : Nat) (op : MapOp K Unit Q)
   | inject (at_ : Nat)
   | endCase
 
